@@ -20,6 +20,8 @@ const MSG_RX_STATE_BITMAP_LEN: u32 = 16;
 #[derive(Debug)]
 #[cfg_attr(feature = "defmt", derive(defmt::Format))]
 pub struct RxCtrState {
+    /// `false` until the first message is received
+    synced: bool,
     max_ctr: u32,
     ctr_bitmap: u16,
 }
@@ -27,8 +29,19 @@ pub struct RxCtrState {
 impl RxCtrState {
     pub const fn new(max_ctr: u32) -> Self {
         Self {
+            synced: true,
             max_ctr,
             ctr_bitmap: 0xffff,
+        }
+    }
+
+    /// A state that had not received any message yet: the first message,
+    /// whatever its counter, is accepted and anchors the window.
+    pub const fn unsynced() -> Self {
+        Self {
+            synced: false,
+            max_ctr: 0,
+            ctr_bitmap: 0,
         }
     }
 
@@ -51,6 +64,14 @@ impl RxCtrState {
     /// - `true` (group): modular comparison — a counter is forward
     ///   iff `(msg_ctr - max_ctr) mod 2^32` falls in `[1, 2^31 - 1]`, otherwise behind.
     pub fn post_recv(&mut self, msg_ctr: u32, is_encrypted: bool, with_rollover: bool) -> bool {
+        if !self.synced {
+            // First message: anchor the window at its counter
+            self.synced = true;
+            self.max_ctr = msg_ctr;
+            self.ctr_bitmap = 0;
+            return true;
+        }
+
         if msg_ctr == self.max_ctr {
             // Duplicate
             return false;
